@@ -218,4 +218,52 @@ theorem step_stop_inv (env : Env) (nt : Ctx → Ctx × Outcome Tok) (c : Cfg) (c
         · exact hp _ h
         · simp at h
 
+/-! ## Introduction rules (the converse of `step_next_inv` / `step_done_inv`) -/
+
+theorem step_shift_intro (env : Env) (nt : Ctx → Ctx × Outcome Tok) (c : Cfg) (state s' : Nat)
+    (acts : List Action) (ctx1 : Ctx) (tk : Tok)
+    (htop : topState c.stack = some state)
+    (hcell : env.t.cell state c.tok.kind = .shift s' :: acts)
+    (hnt : nt (shiftCtx env c s') = (ctx1, .ok tk)) :
+    step env nt c =
+      .next ⟨shiftItem env c s' :: c.stack, shiftLeaf c :: c.res, c.slice, ctx1, tk, c.tok :: c.hist⟩ := by
+  unfold step
+  simp only [htop, hcell]
+  have : nt { state := s', pos := posAfter (sliceOf env.input c.tok.val) c.ctx.pos,
+              span := ⟨c.ctx.pos, posAfter (sliceOf env.input c.tok.val) c.ctx.pos⟩, lay := none } =
+      (ctx1, .ok tk) := hnt
+  rw [this]
+  rfl
+
+theorem step_reduce_intro (env : Env) (nt : Ctx → Ctx × Outcome Tok) (c : Cfg)
+    (state p len fromState s' : Nat) (pr : Prod) (acts : List Action) (ctx1 : Ctx) (tk : Tok)
+    (htop : topState c.stack = some state)
+    (hcell : env.t.cell state c.tok.kind = .reduce p len :: acts)
+    (hlen : len ≤ c.stack.length)
+    (hfrom : topState (c.stack.drop len) = some fromState)
+    (hpr : env.g.prods[p]? = some pr)
+    (hgoto : env.t.goto env.g fromState pr.lhs = some s')
+    (hrlen : len ≤ c.res.length)
+    (hnt : nt (reduceCtx c s') = (ctx1, .ok tk)) :
+    step env nt c =
+      .next ⟨⟨s', reduceSpan (c.stack.take len) c.ctx.span⟩ :: c.stack.drop len,
+             reduceNode c p len :: c.res.drop len, some (reduceSlice c len),
+             { ctx1 with lay := c.ctx.lay }, tk, c.hist⟩ := by
+  unfold step
+  have h1 : ¬ c.stack.length < len := by omega
+  have h2 : ¬ c.res.length < len := by omega
+  simp only [htop, hcell, h1, ↓reduceIte, hfrom, hpr, hgoto, h2]
+  have : nt { state := s', pos := c.ctx.pos, span := c.ctx.span, lay := c.ctx.lay } = (ctx1, .ok tk) := hnt
+  rw [this]
+  rfl
+
+theorem step_accept_intro (env : Env) (nt : Ctx → Ctx × Outcome Tok) (c : Cfg) (state : Nat)
+    (acts : List Action) (tr : Tree) (rest : List Tree)
+    (htop : topState c.stack = some state)
+    (hcell : env.t.cell state c.tok.kind = .accept :: acts)
+    (hres : c.res = tr :: rest) :
+    step env nt c = .done c.ctx ⟨tr, c.slice, c.hist⟩ := by
+  unfold step
+  simp only [htop, hcell, hres]
+
 end Rustemo
